@@ -303,7 +303,13 @@ func genStream(r *hx.Rng, tier string, w io.Writer, adversarial bool) {
 	}
 }
 
-func GenC09(r *hx.Rng, tier string, w io.Writer) { genStream(r, tier, w, false) }
+func GenC09(r *hx.Rng, tier string, w io.Writer) {
+	genStream(r, tier, w, false)
+	// back-pressure: more genuine blobs at one height than the hand-off channel can hold
+	c := buildChain(r, 1, 2)
+	fmt.Fprintf(w, "reset ih=1 gt=%d pa=%s start=0\n", baseTime, paHex())
+	fmt.Fprintf(w, "flood da=0 n=10060 %s\n", blobArgs(c.hdr[c.ih]))
+}
 func GenC03(r *hx.Rng, tier string, w io.Writer) { genStream(r, tier, w, true) }
 
 func init() {
